@@ -157,7 +157,10 @@ PROPS["C06"] = {
 PROPS["C07"] = {
     "alternatives": [{
         "name": "matched-conversations",
-        "clauses": [(O + "ClientLogin::finish", "sound_mac"), (O + "ServerLogin::finish", "*"), (T + "TripleDh::finish_ke", "*"), (T + "TripleDh::generate_ke3", "sound"), (O + "ServerLogin::start", "state")],
+        # (public keys enter the transcript re-encoded: a decoder that maps two spellings to one key lets an altered message complete on both sides)
+        "clauses": [(O + "ClientLogin::finish", "sound_mac"), (O + "ServerLogin::finish", "*"), (T + "TripleDh::finish_ke", "*"), (T + "TripleDh::generate_ke3", "sound"), (O + "ServerLogin::start", "state"),
+                    (GE + "deserialize_pk", "canonical"), (K + "PublicKey::deserialize", "*"), (T + "Ke1Message::deserialize", "*"), (T + "Ke2Message::deserialize", "*")],
+        "kani": {"quick": [("api", "x25519_pk_canonical")], "thorough": []},
          "supporting": [(O + "ClientLogin::finish", "rfc"), (O + "ServerLogin::start", "ke2"), (O + "ServerLogin::start", "tape"), (T + "TripleDh::generate_ke1", "*"), (T + "TripleDh::generate_ke2", "rfc"), (T + "TripleDh::generate_ke2", "tape"), (T + "TripleDh::generate_ke3", "rfc"), (O + "ClientLogin::start", "*"), (T + "generate_nonce", "*"), (K + "KeyPair::generate_random", "*")],
          "theorems": ["thm_c07_client_matched", "thm_c07_server_matched", "thm_c07_distinct_sessions", "thm_transcript_agreement", "lemma_km2_injective", "lemma_preamble_injective", "thm_c03_exact"],
     }],
@@ -236,7 +239,7 @@ PROPS["C16"] = {
     "alternatives": [{
         "name": "export-key",
         "clauses": [],
-         "supporting": [(E + "Envelope::seal_raw", "*"), (E + "Envelope::open_raw", "export"), (E + "Envelope::seal", "rfc"), (E + "Envelope::seal", "tape"), (E + "Envelope::open", "rfc"), (O + "ClientRegistration::finish", "rfc"), (O + "ClientLogin::finish", "rfc")],
+         "supporting": [(O + "get_password_derived_key", "*"), (O + "blind", "conf"), (O + "blind", "ok_iff"), (E + "Envelope::seal_raw", "*"), (E + "Envelope::open_raw", "export"), (E + "Envelope::seal", "rfc"), (E + "Envelope::seal", "tape"), (E + "Envelope::open", "rfc"), (O + "ClientRegistration::finish", "rfc"), (O + "ClientLogin::finish", "rfc")],
          "theorems": ["thm_c01_honest_run", "thm_c16_separated", "thm_c16_label_separation"],
     }],
     "witness": "c16",
